@@ -20,9 +20,10 @@ TRUSTED = [
     "extraction: ExtrOcamlBasic + ExtrOcamlZBigInt, OCaml 4.13.1, zarith 1.12; correspondence harness (harness/src/bin/c18.rs), oracle driver (ocaml/c18.ml), case generator (tools/props/c18.py)",
 ]
 ASSUMPTIONS = [
-    "dec(enc(..)) = Some key is proved CONDITIONAL on the lane-wise noise bound (C18_dec_enc_partial); that the bound holds except with negligible probability over the seeds is a cryptographic estimate outside this technique (validated on every generated KEM run)",
+    "dec(enc(..)) = Some key is proved CONDITIONAL: C18_dec_enc_noise_partial assumes that every 16-bit lane of every coefficient of the noise term b.c - d.a (sums of negacyclic products of the short secret vectors) is at most 2^14 - 3 in absolute value, C18_dec_enc_partial assumes the weaker decoding condition directly; that the bound holds except with negligible probability over the seeds is a cryptographic estimate outside this technique (the unconditional statement is kept as Definition C18_dec_enc_full; every generated KEM run is checked to round-trip)",
     "'a modified ciphertext / an unrelated key is rejected' is proved in the precise form C18_dec_accepts_only_reencryptions: acceptance implies the ciphertext IS the deterministic re-encryption of the payload it decodes to; that no such ciphertext other than the honest one can be found is a cryptographic assumption",
     "the debug_assert_eq! shape checks of the module multiplications are not modelled; all call sites and all harness instantiations use consistent shapes",
+    "LatticeSpec.negacyclic (schoolbook product in Z[X], folded modulo X^64+1, reduced modulo p) is the specification used in the theorems; its coefficient-by-coefficient form negacyclic_explicit and a native zarith implementation of the index formula are compared with the model on every ring-product case (SPECDIFF), not proved equal in Coq",
     "inputs of other lengths than the array types allow ([BFieldElement; 64], [u8; 32], [BFieldElement; 320]) are not representable and not modelled",
 ]
 RULE = ("spanning set (all 64x64 unit-vector pairs) and boundary-grid coefficient vectors for ring products, every module shape "
